@@ -410,7 +410,11 @@ class _CryptConfig:
 
             # compare default category options to see if there's anything
             # category-specific
-            if kwds != defkwds:
+            # (values are compared together with their types: vary_rounds=1 is one round,
+            #  vary_rounds=1.0 is 100%, and 1 == 1.0)
+            if kwds != defkwds or any(
+                type(value) is not type(defkwds[key]) for key, value in kwds.items()
+            ):
                 has_cat_options = True
 
         return kwds, has_cat_options
